@@ -1,1 +1,95 @@
-// harnesses for mpsc (included into loom under cfg(loom_verif))
+// crate::rt::mpsc::verif -- C09 (channel machine), C01-O4, C10 (message count).
+#![allow(dead_code, unused_imports)]
+
+use super::*;
+use crate::rt::verif::{le, max_raw, vharness, vv, vv_raw};
+#[cfg(not(kani))]
+use crate::rt::verif::kani_shim as kani;
+use crate::rt::MAX_THREADS;
+
+type Raw = [u16; MAX_THREADS];
+
+fn any_access(max_path: usize) -> Option<Access> {
+    let present: bool = kani::any();
+    if present {
+        let p: usize = kani::any();
+        kani::assume(p < max_path);
+        let v: Raw = kani::any();
+        Some(Access::new(p, &vv(v)))
+    } else {
+        None
+    }
+}
+
+fn view(a: Option<&Access>) -> Option<(usize, Raw)> {
+    a.map(|a| (a.path_id(), vv_raw(a.version())))
+}
+
+pub(crate) fn blank_state() -> State {
+    State {
+        msg_cnt: 0,
+        last_send_access: None,
+        last_recv_access: None,
+        sender_synchronize: Synchronize::new(),
+        receiver_synchronize: VecDeque::new(),
+        created: Location::disabled(),
+    }
+}
+
+vharness! {
+    /// @prop C01,C09 @tier quick @mode full @funcs mpsc::State::last_dependent_access,mpsc::State::set_last_access @bounds all 2x2 pairs of {send,recv}, arbitrary earlier records
+    /// dependence table of channel operations: sends are dependent with sends (queue order), receives with receives; a send and a receive of a non-empty channel commute (blocking at empty is handled by enable/disable).
+    fn channel_dependence_table() {
+        let p: usize = kani::any();
+        kani::assume(p >= 1 && p < 1000);
+        let mut st = blank_state();
+        st.last_send_access = any_access(p);
+        st.last_recv_access = any_access(p);
+        let a: bool = kani::any();
+        let b: bool = kani::any();
+        let to = |s: bool| if s { Action::MsgSend } else { Action::MsgRecv };
+        let v: Raw = kani::any();
+        let before = view(st.last_dependent_access(to(b)));
+        st.set_last_access(to(a), p, &vv(v));
+        let after = view(st.last_dependent_access(to(b)));
+        if a == b {
+            assert!(after == Some((p, v)));
+        } else {
+            assert!(after == before);
+        }
+        kani::cover!(a && !b && before.is_some(), "recv after send keeps the older recv");
+        std::mem::forget(st);
+    }
+}
+
+vharness! {
+    /// @prop C10 @tier quick @mode full @funcs mpsc::State::check_for_leaks @must_fail "Messages leaked" @bounds all message counts
+    /// a channel that still holds messages at the end of the execution is reported: check_for_leaks never returns when msg_cnt != 0.
+    fn channel_leak_reported() {
+        let mut st = blank_state();
+        let n: usize = kani::any();
+        kani::assume(n != 0);
+        st.msg_cnt = n;
+        let idx: usize = kani::any();
+        st.check_for_leaks(idx);
+        assert!(false, "VERIF_MARKER: check_for_leaks returned although messages are queued");
+    }
+}
+
+vharness! {
+    /// @prop C10 @tier quick @mode full @funcs mpsc::State::check_for_leaks @bounds empty channel
+    /// an empty channel is never reported.
+    fn channel_no_false_leak() {
+        let st = blank_state();
+        let idx: usize = kani::any();
+        st.check_for_leaks(idx);
+        kani::cover!(true, "returned");
+        std::mem::forget(st);
+    }
+}
+
+pub(crate) fn mk(msg_cnt: usize) -> State {
+    let mut s = blank_state();
+    s.msg_cnt = msg_cnt;
+    s
+}
